@@ -2,6 +2,7 @@ package vsched
 
 import (
 	"fmt"
+	"io"
 	"sort"
 	"strings"
 	"time"
@@ -106,8 +107,11 @@ func trimStack(s string) string {
 
 // Replay runs the scenario once with the given choices.
 func Replay(sc *Scenario, choices []int) (Outcome, string) {
-	return Run(Config{Prefix: choices}, sc.Body)
+	return Run(Config{Prefix: choices, Trace: ReplayTrace}, sc.Body)
 }
+
+// ReplayTrace, if set, receives the scheduled operations of replayed executions.
+var ReplayTrace io.Writer
 
 // Explore runs the scenario under every schedule with at most Bound preemptions.
 // It stops at the first failure whose signature is not a known finding.
